@@ -287,7 +287,9 @@ func (ir *ifdReader) readMakerNotes(t Tag) {
 			ir.logError(err).Send()
 		}
 	case ifds.Nikon:
-		if t.Size() > 18 { // read Nikon Makernotes header 18 bytes
+		// (the tag has been turned into a directory pointer, whose Size counts 4
+		// bytes per unit: the note's length in bytes is its unit count)
+		if t.UnitCount > 18 { // read Nikon Makernotes header 18 bytes
 			buf, err := ir.fastRead(18)
 			if err != nil {
 				t.logTag(ir.logError(err)).Send()
